@@ -23,7 +23,7 @@ def rng_for(seed, *tags):
 
 
 def make_source(rng, ny, nx, kind=None):
-    kind = kind or rng.choice(["dense", "sparse", "smooth", "impulse", "blob", "sink"])
+    kind = kind or rng.choice(["dense", "sparse", "smooth", "impulse", "blob", "sink", "near_uniform"])
     if kind == "dense":
         q = rng.normal(size=(ny, nx))
     elif kind == "sparse":
@@ -49,8 +49,19 @@ def make_source(rng, ny, nx, kind=None):
         q = -np.abs(rng.normal(size=(ny, nx))) * (rng.random((ny, nx)) < 0.5)
         if not q.any():
             q[ny // 2, nx // 2] = -1.0
+    elif kind == "near_uniform":  # a uniform flux with a weak pattern on top (relative 1e-6 .. 1e-4)
+        q = 1.0 + float(10 ** rng.uniform(-6, -4)) * rng.normal(size=(ny, nx))
     else:
         raise ValueError(kind)
+    # magnitude: the solution is linear in the source, so every relation must hold as well for fluxes of 1e-10 (nmol-scale values in
+    # SI units) or 1e+8 as for O(1) numbers
+    u = rng.random()
+    if u < 0.2:
+        q = q * float(10 ** rng.uniform(-12, -8))
+        kind = f"{kind}*tiny"
+    elif u < 0.28:
+        q = q * float(10 ** rng.uniform(5, 9))
+        kind = f"{kind}*huge"
     return q, str(kind)
 
 
